@@ -21,7 +21,7 @@ RULE = ('Evaluation = one run() + three metar_msg() calls on a frame that satisf
         'parameters); every case counts as non-trivial except the single-row ones.')
 ASSUMPTIONS = ['BLAS/OpenMP threads fixed to 1', 'settings that shatter > 150 hits into hundreds of slices are not '
                'generated: the grouping step is quadratic in the number of slices (slow, not divergent)']
-REQUIRED = ['fam:ulp_dt', 'range_index', 'fam:gmm_direct', 'extra_object_columns', 'extreme_parameters', 'fam:generic', 'fam:degenerate', 'fam:bimodal', 'fam:chain', 'fam:empty_after_crop', 'scaling:minmax-scale',
+REQUIRED = ['debug_logging', 'fam:ulp_dt', 'range_index', 'fam:gmm_direct', 'extra_object_columns', 'extreme_parameters', 'fam:generic', 'fam:degenerate', 'fam:bimodal', 'fam:chain', 'fam:empty_after_crop', 'scaling:minmax-scale',
             'scaling:shift-and-scale', 'scaling:step-scale', 'anomalies', 'refusal:missing_column',
             'refusal:duplicates', 'refusal:type0_coincident', 'refusal:vv_coincident', 'refusal:empty',
             'refusal:not_a_frame', 'refusal:call_order', 'refusal:min_sep_lengths'] + \
@@ -37,7 +37,7 @@ def plan(tier, seed):
     out = []
     for i in range(z['generic']):
         out.append({'fam': 'generic', 's': seed, 'p': NUM, 'i': i, 'allow_empty': True,
-                    'k': {'big': i % 5 == 0, 'anom': i % 2 == 0, 'index': ['concat', 'range_offset', 'range_desc'][(i // 10) % 3] if i % 10 == 3 else None,
+                    'k': {'big': i % 5 == 0, 'anom': i % 2 == 0, 'index': ['concat', 'range_offset', 'range_desc', 'checked_concat'][(i // 10) % 4] if i % 10 == 3 else None,
                           'extreme': i % 3 == 1, 'extra': 'objects' if i % 7 == 2 else None, 'maxrows': 3000 if (tier == 'thorough' and i % 50 == 0) else 1200}})
     for i in range(z['eng']):
         fam = ['bimodal', 'chain', 'tiecut', 'bimodal'][i % 4]
@@ -181,7 +181,14 @@ def check(desc):
         return check_gmm_direct(desc)
     case = empty_after_crop_case(desc) if desc['fam'] == 'empty_after_crop' else pipeline.materialise(desc)
     t0 = time.process_time()
-    run = pipeline.execute(case, contracts=False)
+    if desc['fam'] == 'generic' and desc['i'] % 40 == 7:
+        from .. import env as _env
+        with _env.debug_logging():                    # the logging level must not matter
+            run = pipeline.execute(case, contracts=False)
+        dbg = True
+    else:
+        run = pipeline.execute(case, contracts=False)
+        dbg = False
     cpu = time.process_time() - t0
     viol, tags = [], set()
     sc = case['scene']
@@ -208,6 +215,8 @@ def check(desc):
         tags.add('extreme_parameters')
     if sc.get('index') is not None:
         tags.add('nonunique_index')
+    if dbg:
+        tags.add('debug_logging')
     if sc.get('extra'):
         tags.add('extra_object_columns')
     if sc.get('index_kind') == 'range':
